@@ -18,16 +18,18 @@ run)
   # a seed made against an older HEAD may have been ported by hand to the current one
   [ -f "${patch%.diff}.ported.diff" ] && patch="${patch%.diff}.ported.diff"
   # always test against the current HEAD of /repo (fix commits may have landed since the lane was set up)
-  git -C "$L/repo" checkout -q -- . ; git -C "$L/repo" checkout -q --detach "$(git -C /repo rev-parse HEAD)"
-  git -C "$L/repo" apply "$patch" || git -C "$L/repo" apply --3way "$patch" || { echo "$label: patch does not apply"; git -C "$L/repo" checkout -q -- .; exit 2; }
+  git -C "$L/repo" reset -q --hard; git -C "$L/repo" clean -fdq; git -C "$L/repo" checkout -q --detach "$(git -C /repo rev-parse HEAD)"
+  # seeds were made against an older HEAD: fall back to fuzzy application of the hunks
+  git -C "$L/repo" apply "$patch" 2>/dev/null || (cd "$L/repo" && patch -p1 -s -F3 --no-backup-if-mismatch < "$patch") || { echo "$label: patch does not apply"; git -C "$L/repo" reset -q --hard; git -C "$L/repo" clean -fdq; exit 2; }
+  find "$L/repo" -name "*.rej" -o -name "*.orig" | grep -q . && { echo "$label: patch does not apply (rejects)"; git -C "$L/repo" reset -q --hard; git -C "$L/repo" clean -fdq; exit 2; }
   rsync -a --exclude target --exclude Cargo.toml /verif/mc/ "$L/mc/"
-  (cd "$L/mc" && CARGO_TARGET_DIR="$L/target" cargo build --release --offline > "$L/out/build.log" 2>&1) || { echo "$label: ENGINE BUILD FAILED"; tail -5 "$L/out/build.log"; git -C "$L/repo" checkout -q -- .; exit 2; }
+  (cd "$L/mc" && CARGO_TARGET_DIR="$L/target" cargo build --release --offline > "$L/out/build.log" 2>&1) || { echo "$label: ENGINE BUILD FAILED"; tail -5 "$L/out/build.log"; git -C "$L/repo" reset -q --hard; git -C "$L/repo" clean -fdq; exit 2; }
   for c in "$@"; do
     VERIF_ROOT=/verif VERIF_OUT="$L/out" RUST_BACKTRACE=0 timeout 900 "$L/target/release/pyxis-mc" "$c" quick > "$L/out/$label.$c.log" 2>&1; rc=$?
     cls=$(grep -E "^  class=" "$L/out/$label.$c.log" | head -1 | cut -c1-200)
     echo "$label $c exit=$rc $cls"
   done
-  git -C "$L/repo" checkout -q -- .
+  git -C "$L/repo" reset -q --hard; git -C "$L/repo" clean -fdq
   ;;
 teardown)
   git -C /repo worktree remove --force "$L/repo"; rm -rf "$L"
